@@ -648,7 +648,7 @@ Theorem group_trace_inv selective stream cap0 ops : let w := group_run' selectiv
 Proof.
   intros w. unfold w, group_run'.
   apply (TW_run gst g_slots g_awaited g_member g_handle false false g_order g_pre_exit (fun _ => true) g_finish g_cleanup g_drop
-           (fun _ => false) g_Q G1 G8 G9 G10 G12 g_mutate Tg Ug Ug_cont Ug_stop Tg_order Ug_finish Tg_pre (fun s t _ _ => Tg_endp s t)
+           (fun _ => false) g_Q G1 G8 G9 G10 G12 g_mutate Tg Ug Ug_cont Ug_stop (fun s is s1 t _ => Tg_order s is s1 t) Ug_finish Tg_pre (fun s t _ _ => Tg_endp s t)
            (fun (E: false = true) => match Bool.diff_false_true E with end) Tg_Q Ug_Q Tg_mut).
   intros _. apply Tg_init.
 Qed.
@@ -850,6 +850,95 @@ Qed.
 End NoneIff.
 
 
+(* ============ FutureGroup: the Pending half of "None exactly when empty" ============
+   A future cannot answer End (Poll<Output> has no such value); the model's children are total and may.  For every history in which no member
+   answers End, the trace of a FutureGroup passes the strict check as well: every Pending is returned with some member alive. *)
+Definition noend (t: list ev) : bool := forallb (fun e => match e with EAns AEnd => false | _ => true end) t.
+Lemma noend_app t u : noend (t ++ u) = noend t && noend u. Proof. apply forallb_app. Qed.
+Section PendHalf.
+Definition Nf (s: gst) (t: list ev) := g_stream s = false /\ (noend t = true -> chkN true 0 0 t = true).
+Definition Tf (s: gst) (t: list ev) := Tg s t /\ Nf s t.
+Definition Uf (s: gst) (t: list ev) := Ug s t /\ Nf s t /\ g_count s = g_len s + g_done s /\ g_count s <> 0 /\ (noend t = true -> g_done s = 0).
+
+Lemma Nf_seg s s' t u : Nf s t -> g_stream s' = g_stream s ->
+  (noend t = true -> noend u = true -> chkN true (length (inserted t)) (length (droppedl t)) u = true) -> Nf s' (t ++ u).
+Proof.
+  intros [Hst HN] Hs Hu. split; [congruence|]. rewrite noend_app. intros H. apply andb_true_iff in H as [H1 H2].
+  rewrite chkN_app, (HN H1). cbn. exact (Hu H1 H2).
+Qed.
+
+Lemma Uf_cont : forall s t i a s' eh wkr, Uf s t -> g_awaited s i = true -> i < g_slots s ->
+  g_handle s i a = (s', Cont, eh) -> Uf s' (t ++ EC (g_member s i) wkr :: EAns a :: strip eh).
+Proof.
+  intros s t i a s' eh wkr (HU & HN & Hcnt & Hnz & Hd0) Ha Hi Hh. split; [eapply Ug_cont; eauto|].
+  destruct HU as [HG Hl]. destruct (pend_occ s i (G_slab _ _ HG) Ha) as (m & Ho & Hm). clear Hm.
+  pose proof (g_handle_cases s i a) as Hc. cbn zeta in Hc.
+  destruct a as [|[v|v]|v| |]; rewrite Hc in Hh; inversion Hh; subst; clear Hh.
+  - split; [apply (Nf_seg s' s'); auto|]. split; [exact Hcnt|]. split; [exact Hnz|].
+    rewrite noend_app. intros H. apply andb_true_iff in H as [H _]. auto.
+  - split; [apply (Nf_seg s); auto using vac_stream; cbn; intros; discriminate|].
+    pose proof (vac_state_len s i m false (G_slab _ _ HG) Ho) as X. unfold vac_state in *. cbn in X |- *.
+    split; [lia|]. split; [exact Hnz|]. rewrite noend_app. cbn. rewrite andb_false_r. intros; discriminate.
+Qed.
+Lemma Uf_stop : forall s t i a s' r o eh wkr, Uf s t -> g_awaited s i = true -> i < g_slots s ->
+  g_handle s i a = (s', Stop r o, eh) -> Tf (g_cleanup s') (t ++ EC (g_member s i) wkr :: EAns a :: strip eh ++ [EEndR o]).
+Proof.
+  intros s t i a s' r o eh wkr (HU & HN & _) Ha Hi Hh. split; [eapply Ug_stop; eauto|].
+  pose proof (g_handle_cases s i a) as Hc. cbn zeta in Hc.
+  assert (Hgo : forall s'' u, g_stream s'' = g_stream s -> chkN true (length (inserted t)) (length (droppedl t)) u = true -> Nf (g_cleanup s'') (t ++ u))
+    by (intros; apply (Nf_seg s); auto).
+  destruct a as [|[v|v]|v| |]; rewrite Hc in Hh; inversion Hh; subst; clear Hh; apply Hgo; reflexivity.
+Qed.
+Lemma Tf_order : forall s is s1 t, g_pre_exit s = None -> g_order s = Some (is, s1) -> Tf s t -> Uf s1 t.
+Proof.
+  intros s is s1 t Ep E [HT HN]. split; [eapply Tg_order; eauto|]. unfold g_order in E. inversion E; subst.
+  split; [destruct HN; split; auto|]. cbn. split; [lia|]. split; [|reflexivity].
+  unfold g_pre_exit in Ep. destruct (Nat.eqb_spec (g_len s) 0); [discriminate|auto].
+Qed.
+Lemma Uf_finish : forall s t, Uf s t ->
+  match snd (g_finish s) with Some o => Tf (fst (g_finish s)) (t ++ [EEndR o]) | None => Tf (fst (g_finish s)) (t ++ [EEndP]) end.
+Proof.
+  intros s t (HU & HN & Hcnt & Hnz & Hd0). pose proof (Ug_finish s t HU) as HT. destruct HU as [HG Hl]. unfold g_finish in *.
+  destruct HN as [Hst HN]. rewrite Hst in *. cbn [andb fst snd] in *. split; [exact HT|].
+  apply (Nf_seg s); [split; auto|reflexivity|]. intros En _. cbn [chkN negb orb].
+  specialize (Hd0 En). assert (g_len s <> 0) by lia.
+  destruct (Nat.eqb_spec (length (inserted t)) (length (droppedl t))) as [X|X]; [|reflexivity].
+  apply (G_empty_iff _ _ HG) in X. contradiction.
+Qed.
+Lemma Tf_pre : forall s t o, Tf s t -> g_pre_exit s = Some o -> Tf s (t ++ [EEndR o]).
+Proof.
+  intros s t o [HT HN] E. split; [apply Tg_pre; auto|]. unfold g_pre_exit in E. destruct (Nat.eqb_spec (g_len s) 0) as [E0|]; inversion E; subst.
+  destruct HT as [HG _]. apply (Nf_seg s); auto. intros _ _. cbn. apply (G_empty_iff _ _ HG) in E0. rewrite E0, Nat.eqb_refl. reflexivity.
+Qed.
+Lemma Tf_endp : forall s t, g_pre_exit s = None -> Tf s t -> Tf s (t ++ [EEndP]).
+Proof.
+  intros s t E [HT HN]. split; [apply Tg_endp; auto|]. unfold g_pre_exit in E. destruct (Nat.eqb_spec (g_len s) 0) as [|E0]; [discriminate|].
+  destruct HT as [HG _]. apply (Nf_seg s); auto. intros _ _. cbn.
+  destruct (Nat.eqb_spec (length (inserted t)) (length (droppedl t))) as [X|X]; [apply (G_empty_iff _ _ HG) in X; contradiction|reflexivity].
+Qed.
+Lemma Tf_mut : forall (w: world gst) m a sc, dropped _ w = false -> Tf (cs _ w) (strip (tr _ w)) ->
+  dropped _ (g_mutate w m a sc) = false -> Tf (cs _ (g_mutate w m a sc)) (strip (tr _ (g_mutate w m a sc))).
+Proof.
+  intros w m a sc Hd [HT HN] Hd'. split; [apply Tg_mut; auto|].
+  destruct (mut_shape w m a sc Hd') as (u & A & B & C). rewrite A. apply (Nf_seg (cs _ w)); auto.
+Qed.
+End PendHalf.
+
+Theorem fgroup_pending_nonempty selective cap0 ops : let w := group_run' selective false cap0 ops in
+  dropped _ w = false -> noend (strip (tr _ w)) = true -> chkN true 0 0 (strip (tr _ w)) = true.
+Proof.
+  intros w Hd.
+  assert (H : Tf (cs _ w) (strip (tr _ w))).
+  { unfold w, group_run'.
+    apply (TW_run gst g_slots g_awaited g_member g_handle false false g_order g_pre_exit (fun _ => true) g_finish g_cleanup g_drop
+             (fun _ => false) g_Q G1 G8 G9 G10 G12 g_mutate Tf Uf Uf_cont Uf_stop Tf_order
+             Uf_finish Tf_pre (fun s t E _ => Tf_endp s t E)
+             (fun (E: false = true) => match Bool.diff_false_true E with end)
+             (fun s t H => Tg_Q s t (proj1 H)) (fun s t H => Ug_Q s t (proj1 H)) Tf_mut); [|exact Hd].
+    intros _. split; [apply Tg_init|split; [reflexivity|intros _; reflexivity]]. }
+  destruct H as [_ [_ HN]]. exact HN.
+Qed.
+
 Theorem group_none_iff selective stream cap0 ops : let w := group_run' selective stream cap0 ops in
   dropped _ w = false -> chkN stream 0 0 (strip (tr _ w)) = true.
 Proof.
@@ -857,7 +946,7 @@ Proof.
   assert (H : Tn stream (cs _ w) (strip (tr _ w))).
   { unfold w, group_run'.
     apply (TW_run gst g_slots g_awaited g_member g_handle false false g_order g_pre_exit (fun _ => true) g_finish g_cleanup g_drop
-             (fun _ => false) g_Q G1 G8 G9 G10 G12 g_mutate (Tn stream) (Un stream) (Un_cont stream) (Un_stop stream) (Tn_order stream)
+             (fun _ => false) g_Q G1 G8 G9 G10 G12 g_mutate (Tn stream) (Un stream) (Un_cont stream) (Un_stop stream) (fun s is s1 t _ => Tn_order stream s is s1 t)
              (Un_finish stream) (Tn_pre stream) (fun s t E _ => Tn_endp stream s t E)
              (fun (E: false = true) => match Bool.diff_false_true E with end)
              (fun s t H => Tg_Q s t (proj1 H)) (fun s t H => Ug_Q s t (proj1 H)) (Tn_mut stream)); [|exact Hd].
